@@ -244,6 +244,12 @@ pub fn check_raw(ctx: &mut Ctx, lit: &str) {
                             }
                         }
                     }
+                    // (also for "-0", whichever of its two readings the library takes)
+                    if let Ok(num) = &num {
+                        if num.as_f64().map(|f| f.to_bits()) != n.as_f64().map(|f| f.to_bits()) {
+                            return Err(format!("RawNumber::as_f64 = {:?} but the literal parsed as Number gives {:?}", n.as_f64(), num.as_f64()));
+                        }
+                    }
                     // inside a DOM with raw-number mode the literal survives
                     let doc = format!("{{\"n\":{lit}}}");
                     let mut de = sonic_rs::Deserializer::from_str(&doc).use_rawnumber();
